@@ -14,7 +14,8 @@ THEOREMS = ["KaVerif.C12_range_mem", "KaVerif.C12_range_sorted", "KaVerif.C12_ra
             "KaVerif.C12_comprehension", "KaVerif.C12_comprehension_error",
             "KaVerif.PIPE_array_sum", "KaVerif.PIPE_statements"]
 RULE = ("ranges lo..hi over bounds in [-12,12] plus huge/negative/reversed; range(lo,hi,step) with integer, fractional and float "
-        "steps incl. zero/negative; arrays of 0-12 elements of every kind (ints, fractions, floats, lazy combinatorics, quantities in "
+        "steps incl. zero/negative, and float steps next to 2^51..2^54 / 1e15..2e16 that are rounded or absorbed (operands by "
+        "construction, independent reference loop; a round without progress must be FunctionArgError); arrays of 0-12 elements of every kind (ints, fractions, floats, lazy combinatorics, quantities in "
         "mixed units of one dimension, mixed-dimension for the error path, nested arrays); comprehensions with 1-3 generators of "
         "unequal lengths and 0-3 conditions incl. non-boolean ones; all as Ka text through the real pipeline; non-trivial = non-empty "
         "operand; distinct = distinct Ka text")
